@@ -20,7 +20,8 @@ StartEpisode ==
     /\ LET P == Desugar(Rec[l].cfg.rules)
            start == <<Rec[l].cfg.start>>
            G == MkG(P)
-       IN  /\ gx' = [G |-> G, start |-> start, reduced |-> Reduced(P, start)]
+       IN  /\ gx' = [G |-> G, start |-> start, reduced |-> Reduced(P, start),
+                     ign |-> IF "ign" \in DOMAIN Rec[l].cfg THEN SeqSet(Rec[l].cfg.ign) ELSE {}]
            /\ ch' = (<<>> :> Chart0(G, start))
 
 Voc(c) == Rec[ini].cfgs[c + 1]
@@ -32,7 +33,9 @@ HistBytes(c, h) ==
     IF h = <<>> THEN <<>>
     ELSE (IF IsSpecial(c, Head(h)) THEN <<>> ELSE TokBytes(c, Head(h))) \o HistBytes(c, Tail(h))
 
-Push(chart, w) == PushBytes(gx.G, chart, w)
+Push(chart, w) == IF gx.ign = {} THEN PushBytes(gx.G, chart, w) ELSE PushBytesI(gx.G, chart, w, gx.ign)
+(* bytes that may come next: first bytes of the terminals the item set expects, and the ignorable bytes where allowed *)
+Next1(chart) == NextBytes(chart) \cup IgnNow(chart, gx.ign)
 
 (* chart for a byte string, from the longest cached prefix *)
 ChartOf(hb) ==
@@ -53,7 +56,7 @@ Text(c) == {t \in 0..(Voc(c).n - 1) : ~IsSpecial(c, t) \/ t = Voc(c).eos}
 (* same set as {t \in Text(c) : Allowed(c, chart, t)}; the first byte is tested against the set *)
 (* of bytes that can come next before any item set is built                                    *)
 ExactMask(c, chart) ==
-    LET nb == NextBytes(chart)
+    LET nb == Next1(chart)
         acc == IsAcc(chart)
     IN  {t \in Text(c) :
             IF t = Voc(c).eos THEN acc
@@ -77,7 +80,7 @@ RECURSIVE Forced(_, _)
 Forced(chart, b) ==
     IF b = <<>> THEN TRUE
     ELSE /\ ~IsAcc(chart)
-         /\ NextBytes(chart) = {Head(b)}
+         /\ Next1(chart) = {Head(b)}
          /\ Forced(Push(chart, <<Head(b)>>), Tail(b))
 
 Exact(r) ==
@@ -118,7 +121,7 @@ Explain(r) ==
         c == s.cfgi
         st == ChartOf(HistBytes(c, s.hist))
     IN PrintT(<<"WHY", r.ev, "hist", s.hist, "bytes", HistBytes(c, s.hist), "expected-mask", ExactMask(c, st),
-                "accepting", IsAcc(st), "next-bytes", NextBytes(st)>>)
+                "accepting", IsAcc(st), "next-bytes", Next1(st)>>)
 
 (* remember the chart of the history the event was evaluated in *)
 Remember(r) ==
